@@ -59,6 +59,7 @@ struct Dest
    std::vector< int>                        rv;        // DEST_RANGE
    std::bitset< 64>                         rb;        // DEST_RANGE_BITSET
    celma::container::DynamicBitset          dynb{ 8};
+   std::string                              calls;     // value callable and bracket handlers
 
    std::string snapshot() const
    {
@@ -87,11 +88,12 @@ struct Dest
          for (size_t k = 0; k < rv.size() && k < 40; ++k) os_ << rv[ k] << ",";
          os_ << "(" << rv.size() << ") rb=" << rb.to_string() << " dynb=" << dynb.count() << "/" << dynb.size();
       }
+      if (!calls.empty()) os_ << " calls=" << calls;
       return os_.str();
    }
 };
 
-enum ArgKind { kFlag, kInt, kUnsigned, kDouble, kStr, kOptInt, kOptStr, kIntList, kStrList, kMap, kTuple, kBits, kPositional, kCommand, kRange };
+enum ArgKind { kFlag, kInt, kUnsigned, kDouble, kStr, kOptInt, kOptStr, kIntList, kStrList, kMap, kTuple, kBits, kPositional, kCommand, kRange, kCallValue, kBracket };
 
 /// what the generators need to know about one defined argument
 struct ArgInfo
@@ -109,6 +111,7 @@ struct ArgInfo
    int                         exact_values = 0; // tuples / exact cardinality
    int                         max_values = 6;
    bool                        in_subgroup = false;
+   bool                        invertible = false; // may be preceded by the control character '!'
 };
 
 struct Built
@@ -352,6 +355,25 @@ inline void build( Handler& h, Handler* sub, Dest& d, const Json& recipe, Built&
       if (sep != ',') { tryOpt( out, "dynbits setListSep", [ &] { a3->setListSep( sep); i3.sep = sep; }); }
       out.args.push_back( i3);
    }
+   if (has( recipe, "R16"))
+   {
+      // control characters: '!' in front of an argument that allows inversion
+      // (a value callable), '(' and ')' with bracket handlers
+      Dest* const  dp = &d;
+      auto     a1 = h.addArgument( "K,call", DEST_LAMBDA_VALUE( ([ dp]( const std::string& v, bool inverted)
+                                      { dp->calls += (inverted ? "!" : "") + v + ";"; })), "value callable");
+      ArgInfo  i1{ "K", "call", kCallValue};
+      i1.once = false;
+      tryOpt( out, "allowsInversion", [ &] { a1->allowsInversion(); i1.invertible = true; });
+      out.args.push_back( i1);
+      tryOpt( out, "addBracketHandler", [ &]
+      {
+         h.addBracketHandler( [ dp]() { dp->calls += "(;"; }, [ dp]() { dp->calls += ");"; });
+         ArgInfo  i2{ "", "", kBracket};
+         i2.once = false;
+         out.args.push_back( i2);
+      });
+   }
    if (has( recipe, "R14") && sub != nullptr)
    {
       sub->addArgument( "n,sub-int", DEST_VAR( d.sub_i), "sub int");
@@ -392,7 +414,8 @@ inline void describeRecipe( const Json& recipe, Built& out, bool with_subgroup)
 }
 
 /// draws a recipe (which sets, which options)
-inline Json genRecipe( Rng& rng, bool allow_positional, bool allow_subgroup, bool allow_command = false, bool allow_ranges = false)
+inline Json genRecipe( Rng& rng, bool allow_positional, bool allow_subgroup, bool allow_command = false, bool allow_ranges = false,
+                       bool allow_control = false)
 {
    static const char* const  sets[] = { "R1", "R2", "R3", "R4", "R5", "R6", "R7", "R8", "R11" };
    Json  r = Json::object();
@@ -412,6 +435,7 @@ inline Json genRecipe( Rng& rng, bool allow_positional, bool allow_subgroup, boo
    if (allow_subgroup && rng.chance( 1, 6)) chosen.push( "R14");
    if (allow_command && rng.chance( 1, 5)) chosen.push( "R13");
    if (allow_ranges && rng.chance( 1, 4)) chosen.push( "R15");
+   if (allow_control && rng.chance( 1, 4)) chosen.push( "R16");
    r[ "sets"] = chosen;
    static const char* const  seps[] = { ",", ",", ";", ":", ".", "+", "|" };
    r[ "sep"] = seps[ rng.below( 7)];
@@ -611,6 +635,8 @@ inline std::vector< std::string> genValues( Rng& rng, const ArgInfo& a, bool hos
       break;
    }
    case kPositional: v.push_back( genStringValue( rng, "", false)); break;
+   case kCallValue: v.push_back( genStringValue( rng, "", false)); break;
+   case kBracket: v.push_back( rng.chance( 1, 2) ? "(" : ")"); break;
    case kCommand:
    {
       // the command and its own arguments (may be empty: the key is the last word)
@@ -627,8 +653,10 @@ inline std::vector< std::string> genValues( Rng& rng, const ArgInfo& a, bool hos
 inline std::vector< std::string> genWords( Rng& rng, const ArgInfo& a, const std::vector< std::string>& values)
 {
    std::vector< std::string>  w;
-   if (a.kind == kPositional)
+   if (a.kind == kPositional || a.kind == kBracket)
       return values;
+   if (a.invertible && rng.chance( 1, 3))
+      w.push_back( "!");
    const bool  use_long = !a.lkey.empty() && (a.skey.empty() || rng.chance( 1, 2));
    if (values.empty())
    {
